@@ -4,12 +4,12 @@ def seqs : List (List Char × Nat × Bool × Bool × Bool × Bool × Bool) := [(
 def quoteChars : List Char := ['|', '&', ';', '(', ')', '<', '>']
 def quoteLeft : List Char := ['"']
 def quoteRight : List Char := ['"']
-def guards : List String := ["!multiple && allOutputs && ep==\"\" && len(dep.Outputs())>1", "!dep.IsBinary && runnable", "len(dep.Outputs())==0 && runnable", "test && tool"]
+def guards : List String := ["!multiple && allOutputs && ep==\"\" && len(dep.Outputs())>1", "!dep.IsBinary && runnable", "len(dep.Outputs())==0 && runnable", "test && tool", "!multiple && allOutputs && ep==\"\" && len(dep.Outputs())==0"]
 def passesChained : Bool := true
--- skelCheckTail: if p9 { v0, v1 := p0.TargetHasher.OutputHash(p2) if v1 != nil { panic(v1) } return base64.RawURLEncoding.EncodeToString(v0) } ; var v2 strings.Builder ; if p3 == "" { for v3, v4 := range p2.Outputs() { if p11 || v4 == p4 { if p12 && !p0.WillRunRemotely(p1) { v5, v6 := filepath.Abs(handleDir(p2.OutDir(), v4, p7)) if v6 != nil { log.Fatalf("…", v6) } v2.WriteString(quote(v5)) } else { v2.WriteString(quote(fileDestination(p1, p2, v4, p7, p8, p10))) } v2.WriteString(" ") if p7 { break } } } return strings.TrimRight(v2.String(), " ") } ; v7, v8 := p2.EntryPoints[p3] ; if !v8 { log.Fatalf("…", p2, p3) } ; return quote(fileDestination(p1, p2, v7, p7, p8, p10))
-def skelCheckTail : String := "670196609d9b8bd1d59e51f2"
--- skelFileDestination: if p4 { return handleDir(p1.OutDir(), p2, p3) } ; if p5 && p0 == p1 { return "./" + p2 } ; return handleDir(p1.Label.PackageName, p2, p3)
-def skelFileDestination : String := "8d73b34cfc21f5571f8e4284"
+-- skelCheckTail: if p9 { v0, v1 := p0.TargetHasher.OutputHash(p2) if v1 != nil { panic(v1) } return base64.RawURLEncoding.EncodeToString(v0) } ; var v2 strings.Builder ; if p3 == "" { for v3, v4 := range p2.Outputs() { if p11 || v4 == p4 { if p12 && !p0.WillRunRemotely(p1) { v5, v6 := filepath.Abs(handleDir(p2.OutDir(), v4, p7)) if v6 != nil { log.Fatalf("…", v6) } v2.WriteString(quote(v5)) } else { v2.WriteString(quote(fileDestination(p1, p2, v4, p7, p8, p10))) } v2.WriteString(" ") if p7 { break } } } return strings.TrimRight(v2.String(), " ") } ; v7, v8 := p2.EntryPoints[p3] ; if !v8 { log.Fatalf("…", p2, p3) } ; if p12 && !p0.WillRunRemotely(p1) { v9, v10 := filepath.Abs(handleDir(p2.OutDir(), v7, p7)) if v10 != nil { log.Fatalf("…", v10) } return quote(v9) } ; return quote(fileDestination(p1, p2, v7, p7, p8, p10))
+def skelCheckTail : String := "5dc4ce40883ca636767d3870"
+-- skelFileDestination: if p4 { return handleDir(p1.OutDir(), p2, p3) } ; if p5 && p0 == p1 { return "./" + p2 } ; return handleDir(p1.Label.PackageDir(), p2, p3)
+def skelFileDestination : String := "f3d77e2b10c364f21f1480ff"
 -- skelHandleDir: if p2 { return p0 } ; return filepath.Join(p0, p1)
 def skelHandleDir : String := "ac1e5d5f468350ce2019b35b"
 -- skelReplaceSequenceLabel: if p2 == p1.Label { return checkAndReplaceSequence(p0, p1, p1, p3, p4, p5, p6, p7, p8, p9, p10, p11, false) } ; v0 := p1.DependenciesFor(p2) ; if len(v0) == 0 { panic(fmt.Sprintf("…", p1.Label, p4, p2)) } ; return checkAndReplaceSequence(p0, p1, v0[0], p3, p4, p5, p6, p7, p8, p9, p10, p11, p1.IsTool(p2))
